@@ -300,3 +300,4 @@ def run(ctx, rep):
     from rules import C05 as _C05
     compose(ctx, rep, "C05", "C03.valid", r"^C05\.(short|eof)$")
     compose(ctx, rep, "C07", "C03.bytes", r"^C07\.width$")
+    compose(ctx, rep, "C11", "C03.md5", r"^C11\.sentinel$", key_only=r"from_reader reports md5")
